@@ -177,7 +177,8 @@ def curM (tb : Tables) : M :=
 def devSites : List (String × List (GoT × MF)) :=
   [("D57", [(.iface, .fields)]),
    ("D37", [(.object, .interfaces)]),
-   ("D53", [(.list, .name), (.nonNull, .name), (.list, .description), (.nonNull, .description)]),
+   ("D53", [(.list, .name), (.nonNull, .name)]),
+   ("D53-desc", [(.list, .description), (.nonNull, .description)]),
    ("D52", [(.arg, .defaultValue), (.inputField, .defaultValue)])]
 
 /-- the model with one listed deviation repaired -/
